@@ -492,6 +492,19 @@ fn main() {
                 let mut sys = Sys::new(fl, st, fund, (run / combos.len()) % 2 == 1);
                 t.reset(sys.reset_event());
                 let mut last = sys.obs();
+                // Directed (Lazy strategy, every other such run): a standing allowance, then a forward whose authorized maximum
+                // lies at the very bottom of the i128 range with a small positive fee - no arithmetic on (max, fee) may let it pass;
+                // and the mirror image at the top (fee = i128::MAX against a maximum of i128::MAX - 1).
+                if st == "Lazy" && (run / combos.len()) % 2 == 0 {
+                    let mk = |kind: &str, fee: i64, max: i64, de: i64| json!({"op": kind, "dt": 0, "tok": "t1", "fee": fee, "max": max, "de": de, "user": "u",
+                        "rel": "r", "rauth": true, "diff": "none", "tfn": "hit", "tfail": false, "x": 1, "tgt": "tg1", "oper": "none", "oauth": false});
+                    let k = *pick(&mut r, &[1i64, 3, 19]);
+                    for op in [mk("approve", 0, 30, 50), mk("forward", k + 1, -TOP + k, 5), mk("forward", 1, -TOP, 5), mk("forward", TOP, TOP - 1, 5)] {
+                        let ev = sys.step(&op);
+                        last = ev["obs"].clone();
+                        t.step(ev);
+                    }
+                }
                 for _ in 0..len {
                     let dt = if r.gen_ratio(1, 25) { 3000 } else { *pick(&mut r, &[0i64, 0, 0, 0, 1, 1, 2]) };
                     let has_list = fl != "permissionless";
